@@ -32,15 +32,23 @@ pub fn gen_cases(rng: &mut Rng, tier: Tier) -> Vec<Value> {
             cfg.jobs = (6, 18);
             // multi-task jobs and alternative places are only identifiable in a solution through tags
             cfg.tags = cfg.tags || cfg.multi_jobs || cfg.alt_places;
-            // one history in eight runs on long tours (the stochastic leg selection only samples from 16-32 legs on)
-            let cfg = if i % 8 == 7 { GenCfg::long_tours() } else { cfg };
+            // one history in four runs on long tours (the stochastic leg selection only samples from 16-32 legs on)
+            let long = i % 4 == 3;
+            let cfg = if long { GenCfg::long_tours() } else { cfg };
             let mut sp = gen_problem(rng, &cfg);
             // one history in three runs under explicit objectives which keep per-solution aggregates (work balance,
             // compact tours, soft tour order): their cached values must follow every step as well
             if i % 3 == 2 {
                 sp.objectives = gen_objectives(rng, &sp);
             }
-            let ops: Vec<u64> = (0..steps).map(|_| rng.next() % 100_000).collect();
+            // on long tours three steps in four are ruin+recreate pairs (odd script numbers): they re-insert multi-part jobs
+            // through the sampling leg selection
+            let ops: Vec<u64> = (0..if long { steps * 2 } else { steps })
+                .map(|_| {
+                    let r = rng.next() % 100_000;
+                    if long && rng.chance(1, 2) { r | 1 } else { r }
+                })
+                .collect();
             json!({"k": "history", "sp": sp, "ops": ops, "relations": i % 3 == 1, "rseed": rng.next() % 1000})
         })
         .collect()
